@@ -122,6 +122,15 @@ define_ops! {
     pg_to_sql_seq = |a: U, b: U, t: N| { let mut out = bytes::BytesMut::new(); out.extend_from_slice(&[0xEE, 0xDD, 0xCC]); let r1 = postgres_types::ToSql::to_sql(&a, &PG_TYPES[t], &mut out).is_ok(); let l1 = out.len(); let r2 = postgres_types::ToSql::to_sql(&b, &PG_TYPES[t], &mut out).is_ok(); (r1, l1, r2, out.to_vec()) };
     pg_array = |a: U, b: U, t: N| { let mut out = bytes::BytesMut::new(); out.extend_from_slice(&[0xEE]); let v = vec![a, b]; let r = postgres_types::ToSql::to_sql(&v, &PG_ARRAY_TYPES[t].0, &mut out).is_ok(); let back = if r { <Vec<Uint<B, L>> as postgres_types::FromSql>::from_sql(&PG_ARRAY_TYPES[t].0, &out[1..]).ok().map(lst) } else { None }; (r, out.to_vec(), back) };
     pg_accepts = |t: N| (<Uint<B, L> as postgres_types::ToSql>::accepts(&PG_TYPES[t]), <Uint<B, L> as postgres_types::FromSql>::accepts(&PG_TYPES[t]));
+    // the caller's output buffer: a fixed slice of exactly the advertised length inside a larger sentinel-filled array
+    // (`&mut [u8]` as BufMut), a BytesMut with `cap` bytes of capacity and 2 bytes already in it, DER into slices that are
+    // too short / exact / longer, SCALE through `using_encoded` and a byte-at-a-time Output
+    alloy_slice_enc = |a: U| { let n = alloy_rlp::Encodable::length(&a); let mut buf = vec![0xEEu8; n + 4]; { let mut cur = &mut buf[2..2 + n]; alloy_rlp::Encodable::encode(&a, &mut cur); assert!(cur.is_empty(), "bytes written != length()"); } buf };
+    fastrlp04_slice_enc = |a: U| { let n = fastrlp_04::Encodable::length(&a); let mut buf = vec![0xEEu8; n + 4]; { let mut cur = &mut buf[2..2 + n]; fastrlp_04::Encodable::encode(&a, &mut cur); assert!(cur.is_empty(), "bytes written != length()"); } buf };
+    alloy_bytesmut_enc = |a: U, cap: N| { let mut o = bytes::BytesMut::with_capacity(cap); o.extend_from_slice(&[0xEE, 0xDD]); alloy_rlp::Encodable::encode(&a, &mut o); alloy_rlp::Encodable::encode(&a, &mut o); o.to_vec() };
+    fastrlp03_bytesmut_enc = |a: U, cap: N| { let mut o = bytes::BytesMut::with_capacity(cap); o.extend_from_slice(&[0xEE, 0xDD]); fastrlp_03::Encodable::encode(&a, &mut o); fastrlp_03::Encodable::encode(&a, &mut o); o.to_vec() };
+    der_slice_enc = |a: U, n: N| { let mut buf = vec![0xEEu8; n]; let r = der::Encode::encode_to_slice(&a, &mut buf).map(|s| s.to_vec()).ok(); (r, buf) };
+    scale_outputs_enc = |a: U| { struct One(Vec<u8>, usize); impl parity_scale_codec::Output for One { fn write(&mut self, b: &[u8]) { self.1 += 1; self.0.extend_from_slice(b); } } let mut o = One(vec![0xEE], 0); parity_scale_codec::Encode::encode_to(&a, &mut o); let mut c = One(vec![0xEE], 0); if B < 536 { parity_scale_codec::Encode::encode_to(&CompactRefUint(&a), &mut c); } (parity_scale_codec::Encode::using_encoded(&a, |b| b.to_vec()), o.0, if B < 536 { parity_scale_codec::Encode::using_encoded(&CompactRefUint(&a), |b| b.to_vec()) } else { vec![] }, c.0) };
     // two values written back to back into ONE pre-filled buffer through the streaming APIs (multi-step sequence)
     seq_alloy = |a: U, b: U| { let mut o = vec![0xEEu8]; alloy_rlp::Encodable::encode(&a, &mut o); alloy_rlp::Encodable::encode(&b, &mut o); o };
     seq_fastrlp03 = |a: U, b: U| { let mut o = vec![0xEEu8]; fastrlp_03::Encodable::encode(&a, &mut o); fastrlp_03::Encodable::encode(&b, &mut o); o };
@@ -689,6 +698,42 @@ fn model(bits: usize, op: Op, args: &[V]) -> Expect {
             let cl = rc::der_content(&a()).len();
             is(V::T(vec![V::some(by(e.clone())), V::some(V::n(e.len())), V::some(V::n(cl))])).nt(true)
         }
+        alloy_slice_enc | fastrlp04_slice_enc => {
+            let mut e = vec![0xEEu8, 0xEE];
+            e.extend(rc::rlp(&a()));
+            e.extend([0xEE, 0xEE]);
+            is(by(e)).nt(true)
+        }
+        alloy_bytesmut_enc | fastrlp03_bytesmut_enc => {
+            let mut e = vec![0xEEu8, 0xDD];
+            e.extend(rc::rlp(&a()));
+            e.extend(rc::rlp(&a()));
+            is(by(e)).nt(true)
+        }
+        der_slice_enc => {
+            let n = args[1].as_n() as usize;
+            let e = rc::der(&a());
+            if n < e.len() {
+                // too short: an error, whatever was written to the caller's slice stays inside it
+                pred("(None, _) - the slice is too short", |g| matches!(g, V::T(t) if t.len() == 2 && t[0] == V::None)).nt(true)
+            } else {
+                let mut buf = vec![0xEEu8; n];
+                buf[..e.len()].copy_from_slice(&e);
+                is(V::T(vec![V::some(by(e)), by(buf)])).nt(true)
+            }
+        }
+        scale_outputs_enc => {
+            let f = rc::scale_bytes(&rc::fixed_le(&a(), nb));
+            let mut f1 = vec![0xEEu8];
+            f1.extend(&f);
+            if bits >= 536 {
+                return pred("fixed form through using_encoded and a custom Output (compact form not defined at this width)", move |g| matches!(g, V::T(t) if t.len() == 4 && t[0] == V::Bytes(f.clone()) && t[1] == V::Bytes(f1.clone()))).nt(true);
+            }
+            let c = rc::compact(&a());
+            let mut c1 = vec![0xEEu8];
+            c1.extend(&c);
+            is(V::T(vec![by(f), by(f1), by(c), by(c1)])).nt(true)
+        }
         der_any_enc | der_int_enc | der_uint_enc => is(V::some(by(rc::der(&a())))).nt(true),
         biguint_from => {
             let e = if a().is_zero() { vec![0u8] } else { a().to_bytes_le() };
@@ -1104,6 +1149,20 @@ fn c16(r: &Runner) {
                 }
                 for t in 0..PG_ARRAY_TYPES.len() {
                     exec(l, bits, Op::pg_array, &[a.clone(), bw.clone(), V::n(t)]);
+                }
+            }
+            for op in [Op::alloy_slice_enc, Op::fastrlp04_slice_enc, Op::scale_outputs_enc] {
+                exec(l, bits, op, &[a.clone()]);
+            }
+            {
+                let el = rc::rlp(&v).len();
+                for cap in [0usize, 1, 2, 3, el + 1, el + 2, el + 3, 2 * el + 1, 2 * el + 2, 64] {
+                    exec(l, bits, Op::alloy_bytesmut_enc, &[a.clone(), V::n(cap)]);
+                    exec(l, bits, Op::fastrlp03_bytesmut_enc, &[a.clone(), V::n(cap)]);
+                }
+                let dl = rc::der(&v).len();
+                for n in [0usize, 1, 2, dl.saturating_sub(1), dl, dl + 1, dl + 9] {
+                    exec(l, bits, Op::der_slice_enc, &[a.clone(), V::n(n)]);
                 }
             }
             roundtrips(l, bits, &v);
